@@ -490,8 +490,12 @@ class ResolveUndoExtension(IndexExtension):
         Returns:
           ResolveUndoExtension instance
         """
-        # TODO: Implement resolve undo parsing
-        return cls([])
+        # TODO: Implement resolve undo parsing; until then the payload is
+        # carried along unchanged so that reading and writing an index does
+        # not destroy it
+        ext = cls([])
+        ext.data = data
+        return ext
 
     def to_bytes(self) -> bytes:
         """Serialize ResolveUndoExtension to bytes.
@@ -500,7 +504,7 @@ class ResolveUndoExtension(IndexExtension):
           Serialized extension data
         """
         # TODO: Implement resolve undo serialization
-        return b""
+        return self.data
 
 
 class UntrackedExtension(IndexExtension):
@@ -760,7 +764,10 @@ def write_cache_time(f: IO[bytes], t: int | float | tuple[int, int]) -> None:
         t = (t, 0)
     elif isinstance(t, float):
         (secs, nsecs) = divmod(t, 1.0)
-        t = (int(secs), int(nsecs * 1000000000))
+        # round: 2.3 is 2.2999999999999998 as a double
+        t = (int(secs), round(nsecs * 1000000000))
+        if t[1] >= 1000000000:
+            t = (t[0] + 1, 0)
     elif not isinstance(t, tuple):
         raise TypeError(t)
     f.write(struct.pack(">LL", *t))
@@ -986,7 +993,8 @@ def read_index_dict_with_version(
             break
 
         # Check if it's a valid extension signature (4 uppercase letters)
-        if not all(65 <= b <= 90 for b in signature):
+        # (4 uppercase letters, or the mandatory "sdir" of a sparse index)
+        if not all(65 <= b <= 90 for b in signature) and signature != SDIR_EXTENSION:
             # Not an extension, seek back
             f.seek(-4, 1)
             break
@@ -1216,7 +1224,8 @@ class Index:
             for ext in self._extensions:
                 # Skip extensions that have empty data
                 ext_data = ext.to_bytes()
-                if ext_data:
+                if ext_data or isinstance(ext, SparseDirExtension):
+                    # ("sdir" is empty by design: its presence is the signal)
                     meaningful_extensions.append(ext)
 
             if self._skip_hash:
@@ -1254,7 +1263,16 @@ class Index:
             entries, version, extensions = read_index_dict_with_version(sha1_reader)
             self._version = version
             self._extensions = extensions
-            self.update(entries)
+            # what is on disk replaces what was in memory, and every entry
+            # keeps its own spelling: git keeps README and readme apart also
+            # under core.ignorecase, so reading must not fold one onto the
+            # other
+            self.clear()
+            for key, value in entries.items():
+                self._byname[key] = value
+                if self._normalized is not None:
+                    assert self._path_normalizer is not None
+                    self._normalized.setdefault(self._path_normalizer(key), key)
             # Extensions have already been read by read_index_dict_with_version
             sha1_reader.check_sha(allow_empty=True)
         finally:
@@ -3691,8 +3709,18 @@ class locked_index:
             return
         try:
             f = SHA1Writer(self._file)
-            write_index_dict(f, self._index._byname)
+            write_index_dict(
+                f,
+                self._index._byname,
+                version=self._index._version,
+                extensions=[
+                    ext
+                    for ext in self._index._extensions
+                    if ext.to_bytes() or isinstance(ext, SparseDirExtension)
+                ],
+            )
         except BaseException:
             self._file.abort()
+            raise
         else:
             f.close()
